@@ -1,6 +1,7 @@
 """C03 — range tests flag by inclusive interval membership, fail before suspect."""
 import adapters
 import fns
+import core
 from core import fr as core_fr
 
 PID = "C03"
@@ -34,6 +35,24 @@ def run(ctx):
         n, f = cc.integer_series_failures("gross_range_test", fns.GrossRange(), g, also=("float32",))
         extra_n += n
         extra_fail += f
+    # the same numbers given as a plain list (missing as None), with an unbounded side written as a missing or as an
+    # INFINITE bound: valid_range_test then guesses the type of its input
+    base_cases = [c for c in fns.gen_valid("quick", rng) if c["kind"] == "float" and (c["lo"] is None or c["hi"] is None)]
+    ad = fns.ValidRange()
+    for c in cc.sample(base_cases, 80 if tier == "quick" else 800, rng):
+        base, _ = ad.impl(c)
+        tr, applied = cc.carrier_transform("list_none", None, None)
+        core.KW_TRANSFORM = tr
+        try:
+            got, _ = ad.impl(c)
+        finally:
+            core.KW_TRANSFORM = None
+        if applied["n"]:
+            extra_n += 1
+            if got != base:
+                extra_fail.append({"kind": "predicate", "function": "valid_range_test", "case": c, "impl": base,
+                                   "impl_carrier": got, "carrier": {"data": "list_none"},
+                                   "clause": "a plain list (missing as None) does not get the flags of the same numbers as an ndarray"})
     r2["failures"] += extra_fail
     r2["evaluations"] += extra_n
     return adapters.merge(
